@@ -195,7 +195,7 @@ Proof.
       rewrite E in H. destruct ((0 <=? 8 * big_words v) && (8 * big_words v <? TWO32)) eqn:E2; [lia|discriminate].
     + destruct ((0 <=? v) && (v <? TWO32)); [cbn; exact Hm|discriminate].
     + reflexivity.
-    + destruct (forallb ascii_ok cs); [|discriminate].
+    + destruct (text_ok cs); [|discriminate].
       destruct ((0 <=? zlen cs) && (zlen cs <? TWO32)) eqn:E2; [lia|discriminate].
     + rewrite Hb. destruct ((0 <=? zlen bs0) && (zlen bs0 <? TWO32)) eqn:E2; [lia|discriminate].
     + destruct ((- TWO63 <=? v) && (v <? TWO63)); [reflexivity|discriminate].
@@ -325,7 +325,7 @@ Proof.
     destruct (be_dec x =? 1); [injection H as <- <-; split; reflexivity|].
     destruct (be_dec x =? 0); [injection H as <- <-; split; reflexivity|discriminate].
   - destruct (dec_padded len r) as [[x r']|] eqn:Ex; [|discriminate].
-    destruct (forallb ascii_ok x) eqn:Ea; [|discriminate]. injection H as <- <-.
+    destruct (text_ok x) eqn:Ea; [|discriminate]. injection H as <- <-.
     apply dec_padded_spec in Ex as [Lx Hx]; [|exact Hr]. split; [|reflexivity]. cbn [wf_prim]. rewrite Ea. unfold TWO32 in *. lia.
   - destruct (dec_padded len r) as [[x r']|] eqn:Ex; [|discriminate]. injection H as <- <-.
     apply dec_padded_spec in Ex as [Lx Hx]; [|exact Hr]. split; [|reflexivity]. cbn [wf_prim]. rewrite Hx. unfold TWO32 in *. lia.
@@ -454,7 +454,7 @@ Proof.
     destruct (be_dec x =? 1); [injection H as <- <-; apply (Hgoal x Hx); eapply Hb; reflexivity|].
     destruct (be_dec x =? 0); [injection H as <- <-; apply (Hgoal x Hx); eapply Hb; reflexivity|discriminate].
   - destruct (dec_padded len r) as [[x r']|] eqn:Ex; [|discriminate].
-    destruct (forallb ascii_ok x) eqn:Ea; [|discriminate]. injection H as <- <-.
+    destruct (text_ok x) eqn:Ea; [|discriminate]. injection H as <- <-.
     destruct (dec_padded_used _ _ _ _ Ex) as (used0 & Hu & Lu & Lx). apply (Hgoal used0 Hu).
     cbn [enc_prim] in Henc. rewrite Ea in Henc. apply with_hdr_len in Henc.
     rewrite zlen_app, zpad_length, Lx in Henc. lia.
